@@ -28,8 +28,8 @@ CHECKS = {
         text="At every hand-off of a previously pooled connection its close step is compared with the request's issue step and the connection's last pool-entry step; two expiry legs (random histories and structured scenarios with several idle connections of different ages, one of them closed) sleep in real time on both sides of a 25 ms idle_timeout with one-sided assertions.",
         note=POOL_NOTE + " Idle expiry uses std::time::Instant: only coarse one-sided real-time assertions."),
     "C06": dict(engine="poolsim", ref="§5 C06, §4 E1",
-        technique="stateful property-based testing over six URIs / four origins differing in scheme, port, host and letter case; hand-off invariant on (scheme, authority)",
-        text="At every hand-off the origin the connection was dialed for equals the origin of the request's URI, with waiters and idle connections alive for several origins at once; a many-origins leg first sweeps 40-700 distinct origins (so that key/token bookkeeping is exercised at scale) and then issues requests to early and late origins.",
+        technique="stateful property-based testing over an 18-entry origin table (scheme, port, host, letter case, near misses such as the other scheme's default port, IP literals) and over hundreds of synthetic origins; hand-off invariant on (scheme, host, effective port)",
+        text="At every hand-off the origin the connection was dialed for equals the origin of the request's URI, with waiters and idle connections alive for several origins at once; a near-miss leg draws 2-4 origins per case from the whole table (http://h:443 vs http://h, https://h:80 vs https://h, same explicit port under the other scheme, hosts extending one another, IPv4/IPv6 literals); a many-origins leg first sweeps 40-700 distinct origins (so that key/token bookkeeping is exercised at scale) and then issues requests to early and late origins.",
         note=POOL_NOTE),
     "C14": dict(engine="poolsim", ref="§5 C14, §4 E1",
         technique="stateful property-based testing; obligation tracking over generated schedules (release vs first poll vs background hand-back vs dial completion), both continue_after_preemption settings",
@@ -88,7 +88,7 @@ CHECKS.update({
         note="Trusted base: the http crate decides which requests are well-typed; hyper serialises the final http::Request (target compared via to_string and, in the wire leg, parsed from the captured bytes); for schemes without a default port either Host form is accepted."),
     "C17": dict(engine="reqgrammar+tlswire", ref="§5 C17, §4 E6/E5",
         technique="grammar-based robustness testing with a process-wide panic hook and catch_unwind: any panic located in the library (caller task or spawned task) is a violation; debug assertions on",
-        text="The C13 request grammar (every http::Version constant, standard/extension methods incl. CONNECT, absolute/origin/authority/asterisk forms, DNS/IPv4/bracketed IPv6/unusual hosts, header sets, bodies) is sent through the check layers, ConnectionPoolService with and without pool, ConnectorService and the real connection builder; panics caught by the runtime in spawned tasks are observed through the hook.",
+        text="The C13 request grammar (every http::Version constant, standard/extension methods incl. CONNECT, absolute/origin/authority/asterisk forms, DNS/IPv4/bracketed IPv6/unusual hosts from tables and from the URI grammar (reg-names over unreserved, sub-delims and pct-encoded characters, bracketed literals with arbitrary URI characters incl. IPvFuture and [], very long labels and names), header sets, bodies) is sent through the check layers, ConnectionPoolService with and without pool, ConnectorService and the real connection builder; panics caught by the runtime in spawned tasks are observed through the hook.",
         note="Trusted base: panic hook + location filter (/repo/); full-stack TLS/TCP legs live in the C12 engine (tlswire) and netsim."),
 })
 
@@ -100,11 +100,11 @@ NET_NOTE = ("Trusted base: tokio current_thread scheduler with paused clock (sch
 CHECKS.update({
     "C01": dict(engine="netsim+poolsim", ref="§5 C01, §4 E2/E1",
         technique="end-to-end property-based testing in virtual time: generated concurrent request scripts with id-tagged payloads through the real client stack, pool, hyper and Server; two-directional oracle (handler checks every request, client checks every response); plus a pool-level leg requiring every uncancelled request of a fault-free history to succeed",
-        text="Up to 8/24 concurrent requests over 1-3 h1/h2/auto servers with streamed patterned bodies, chunked responses, handler delays, cancellations at any instant, pool on/off and all pool settings: every handled request must carry exactly what its caller sent and every uncancelled request must complete with the response produced for its own id and origin. The open finding (KNOWN_FINDINGS.txt) is matched by signature and does not mask other violations.",
+        text="Up to 8/24 concurrent requests over 1-3 h1/h2/auto servers with streamed patterned bodies, chunked responses, handler delays, cancellations at any instant, pool on/off and all pool settings, and HTTP/1.1 protocol upgrades (101 followed by a raw patterned exchange over the taken-over connection, checked at both ends incl. end-of-stream, never followed by another request on that connection): every handled request must carry exactly what its caller sent and every uncancelled request must complete with the response produced for its own id and origin. The open finding (KNOWN_FINDINGS.txt) is matched by signature and does not mask other violations.",
         note=NET_NOTE),
     "C07": dict(engine="netsim", ref="§5 C07, §4 E2",
         technique="virtual-time schedule generation: the graceful-shutdown signal instant is swept relative to accept, protocol detection, request transfer, handler execution and response transfer; history invariants over the handler log, the executor-wrapped connection tasks and the client results",
-        text="Serving future resolves Ok exactly at the signal; every request whose handler started before the signal receives its complete correct response; every connection task (including idle keep-alive connections and connections still in protocol detection) finishes while the clients keep their ends open; nothing is accepted or served on a connection accepted after the signal.",
+        text="Serving future resolves Ok exactly at the signal; every request whose handler started before the signal receives its complete correct response; every connection task (including idle keep-alive connections and connections still in protocol detection) finishes while the clients keep their ends open; nothing is accepted or served on a connection accepted after the signal. A second leg resolves the signal synchronously while the k-th connection of a burst of simultaneous connects is being accepted (in the middle of one poll of the serving future): no connection beyond the k-th may be accepted or served.",
         note=NET_NOTE + " Idle holders are only placed where hyper itself closes them on graceful shutdown (auto-detecting and idle HTTP/1 connections)."),
     "C09": dict(engine="netsim+socksrv+tlsstack", ref="§5 C09, §4 E2, §10.3",
         technique="fault-sequence generation in virtual time: per-connection faults (cancelled connect, disconnects, garbage, truncated head/body, mid-response disconnect, partial preface, handler errors) interleaved with well-behaved requests; oracle = serving futures still pending, probe client served, other requests correct",
